@@ -40,19 +40,19 @@ func (s *verifNativeState) next(name string) uint64 {
 	return s.vals[name]
 }
 
-func nondetU64(name string) uint64   { return verifNative.next(name) }
-func nondetI64(name string) int64    { return int64(verifNative.next(name)) }
-func nondetInt(name string) int      { return int(verifNative.next(name)) }
-func nondetUint(name string) uint    { return uint(verifNative.next(name)) }
-func nondetU32(name string) uint32   { return uint32(verifNative.next(name)) }
-func nondetI32(name string) int32    { return int32(verifNative.next(name)) }
-func nondetU16(name string) uint16   { return uint16(verifNative.next(name)) }
-func nondetI16(name string) int16    { return int16(verifNative.next(name)) }
-func nondetU8(name string) uint8     { return uint8(verifNative.next(name)) }
-func nondetI8(name string) int8      { return int8(verifNative.next(name)) }
-func nondetBool(name string) bool    { return verifNative.next(name)&1 != 0 }
-func nondetF64(name string) float64  { return math.Float64frombits(verifNative.next(name)) }
-func nondetF32(name string) float32  { return math.Float32frombits(uint32(verifNative.next(name))) }
+func nondetU64(name string) uint64  { return verifNative.next(name) }
+func nondetI64(name string) int64   { return int64(verifNative.next(name)) }
+func nondetInt(name string) int     { return int(verifNative.next(name)) }
+func nondetUint(name string) uint   { return uint(verifNative.next(name)) }
+func nondetU32(name string) uint32  { return uint32(verifNative.next(name)) }
+func nondetI32(name string) int32   { return int32(verifNative.next(name)) }
+func nondetU16(name string) uint16  { return uint16(verifNative.next(name)) }
+func nondetI16(name string) int16   { return int16(verifNative.next(name)) }
+func nondetU8(name string) uint8    { return uint8(verifNative.next(name)) }
+func nondetI8(name string) int8     { return int8(verifNative.next(name)) }
+func nondetBool(name string) bool   { return verifNative.next(name)&1 != 0 }
+func nondetF64(name string) float64 { return math.Float64frombits(verifNative.next(name)) }
+func nondetF32(name string) float32 { return math.Float32frombits(uint32(verifNative.next(name))) }
 
 func assume(c bool) {
 	if !c {
@@ -176,6 +176,6 @@ func loopVarInt(name string) int                 { panic("loopVar is only availa
 func loopVarU64(name string) uint64              { panic("loopVar is only available under gosym") }
 func loopVarI64(name string) int64               { panic("loopVar is only available under gosym") }
 func cutActive() bool                            { return false }
-func streamSeed(r *randomBitStream) uint64 { panic("streamSeed is only available under gosym") }
-func loopFrameValue(typ string) any        { panic("loopFrameValue is only available under gosym") }
-func tickingTimestamps(on bool)              {}
+func streamSeed(r *randomBitStream) uint64       { panic("streamSeed is only available under gosym") }
+func loopFrameValue(typ string) any              { panic("loopFrameValue is only available under gosym") }
+func tickingTimestamps(on bool)                  {}
